@@ -17,6 +17,8 @@ FARM_SCN = [dict(file="scenarios/farm_F2.ndjson", cfg="users=2,rdenoms=1,initlp=
             dict(file="scenarios/farm_F3.ndjson", cfg="users=3,rdenoms=2,initlp=6,initr=60,prec=10")]
 FARM_MC = T([dict(cfg="MC_Farm.cfg", timeout=1500)], [dict(cfg="MC_Farm_big.cfg", timeout=3400)])
 
+RECORD = [dict(binary="farm", n=T(3, 12), len=25, cfg="users=3,rdenoms=2,initlp=6,initr=60")]
+
 PROPS = {
     "C05": ModuleCheck("farm", "Farm.tla", "FarmTrace.tla", "FarmTrace.cfg", FARM_CLAUSES_C05,
                        FARM_MC, FARM_GEN, FARM_RND, scenarios=FARM_SCN,
